@@ -1184,5 +1184,76 @@ class PostprocessingBody(Contract):
 
 
 CONTRACTS += [UpdateValues()] + SD_STEPS + [PostprocessingBody(1), PostprocessingBody(2)]
-ASSUMPTIONS += ["refinement_postprocessing: removal/sorting (apply_remove) and rebalancing are abstract steps that may leave ANY intervals / levels behind; raise_lmax is assumed to add "
-                "its argument to lmax[d] and to leave the other dimensions' lmax alone"]
+ASSUMPTIONS += ["refinement_postprocessing: removal/sorting (apply_remove) and rebalancing are abstract steps that may leave ANY intervals / levels behind; raise_lmax: its effect on lmax is proved separately (RaiseLmax, 1-2 dimensions; the index-set fix-point loop is partial-correctness only)"]
+
+
+# --------------------------------------------------------------------------- raise_lmax: the effect on lmax, whatever the index-set fix-point does
+Vec_ = z3.ArraySort(I, I)
+
+
+class _SchemeStep(Contract):
+    trusted = True
+    file = "sparseSpACE/combiScheme.py"
+
+    def __init__(self, qualname, params, note, result=None):
+        self.qualname, self._params, self.note, self._result = qualname, params, note, result
+
+    def inputs(self, S):
+        d = {"self": Obj("CombiScheme", {})}
+        for p in self._params:
+            d[p] = None
+        return d
+
+    def result(self, S, env):
+        return self._result(S) if self._result else None
+
+
+class RaiseLmax(Contract):
+    """SpatiallyAdaptiveSingleDimensions2.raise_lmax (1-2 dimensions): lmax[d] grows by `value`, the other dimensions keep theirs, whatever the
+    fix-point loop over the active level vectors does to the combination scheme (partial correctness: its termination is not verified)"""
+    file, qualname = SD_FILE, "SpatiallyAdaptiveSingleDimensions2.raise_lmax"
+
+    def __init__(self, ndim, d):
+        self.ndim, self.d = ndim, d
+        self.label = "SpatiallyAdaptiveSingleDimensions2.raise_lmax[dims=%d,d=%d]" % (ndim, d)
+
+    def applies(self, receiver, args):
+        return False          # callers use the caller-side form in SD_STEPS (same two clauses)
+
+    def inputs(self, S):
+        nd = self.ndim
+        return {"self": Obj("SpatiallyAdaptiveSingleDimensions2", dict(dim=nd, lmax=Seq("list", [S.int("lmax%d" % i) for i in range(nd)]),
+                                                                       lmin=Seq("list", [S.int("lmin%d" % i) for i in range(nd)]), dim_adaptive=S.bool("dim_adaptive"),
+                                                                       combischeme=Obj("CombiScheme", {}), log_util=Obj("LogUtility", {}))),
+                "d": self.d, "value": S.int("value")}
+
+    @staticmethod
+    def entry(lm, i):
+        return V(lm.items[i]) if lm.concrete else z3.Select(lm.arr, i)
+
+    def raised(self, S, env, old=None):
+        old = old or S.ex.old
+        lm, lm0 = env["self"].fields["lmax"], old["self"].fields["lmax"]
+        return z3.And(V(lm.len()) == self.ndim, *[self.entry(lm, i) == self.entry(lm0, i) + (old["value"] if self.d == i else 0) for i in range(self.ndim)])
+
+    def inv(self, S, env, g):
+        return [("lmax-raised-once", self.raised(S, env))]
+
+    @property
+    def loops(self):
+        return {0: Loop(inv=lambda S, env, g: self.inv(S, env, g)),
+                1: Loop(inv=lambda S, env, g: self.inv(S, env, g), key_to_value=lambda S, x: Seq("tuple", [z3.Select(x, i) for i in range(self.ndim)]))}
+
+    def post(self, S, old, env, result):
+        return [Cl("lmax-of-the-dimension-raised-by-the-value-others-untouched", self.raised(S, env, old), prop=True)]
+
+    def model_to_input(self, model):
+        from pyvc import modelparse as mp
+        g = lambda k, dflt: (mp.num(str(model.get(k))) if model.get(k) is not None else dflt)  # noqa
+        return {"kind": "C06.raise_lmax", "ndim": self.ndim, "d": self.d, "lmax": [g("lmax%d" % i, 2) for i in range(self.ndim)], "value": g("value", 1),
+                "dim_adaptive": str(model.get("dim_adaptive", "True")) == "True"}
+
+
+CONTRACTS += [_SchemeStep("CombiScheme.get_active_indices", [], "the active level vectors of the scheme (C01 contract): some set", result=lambda S: S.set("active_indices", Vec_)),
+              _SchemeStep("CombiScheme.update_adaptive_combi", ["levelvec"], "refines the scheme at one active level vector (C01 contract); does not touch the strategy object"),
+              RaiseLmax(1, 0), RaiseLmax(2, 0), RaiseLmax(2, 1)]
